@@ -193,7 +193,7 @@ the `Print Assumptions` summary.
 | C07 | adjoint theorem; commutator-checker soundness | - | hermitian_conjugated, (anti)commutator, double commutator + hopping shortcut, all dual-basis pairs / triples, DC commutator, trotter_error predicates, bch_expand against an exact BCH series (nilpotent exp/log inside Coq) | - |
 | C08 | checker soundness | - | tensor arithmetic, all conversions and round trips, boson<->quad, rotate_basis = substitution, DOCI | rotation spectra |
 | C09 | GF(2) evaluation homomorphism, canonical form sound | - | BinaryPolynomial expressions, code validity on whole domains, binary_code_transform, JW/BK reproduction | - |
-| C10 | number operator eigenvalues | - | sector lists vs full enumeration, restricted matrices, determinant bases, expectation values | ground state at particle number (not covered) |
+| C10 | number operator eigenvalues | - | sector lists vs full enumeration, restricted matrices, determinant bases, expectation values | ground state at particle number (eigenpair, sector support, lowest sector eigenvalue) |
 | C11 | `C11_square/rect/gauss_layers_ok` (every size: adjacent, disjoint within a layer, depth) | covering (each required entry once) for n <= 32 (20) | reconstruction of every decomposition; emitted schedule = model | - |
 | C12 | product / adjoint theorems used | - | Bogoliubov constraints + diagonal form, majorana_form, canonical form, eigenvector residuals | subset-sum spectrum, Slater minors |
 | C13 | `C13_bonds_are_lattice_edges`, `C13_each_bond_once` (every lattice size, both boundary conditions); `C13_gen_right/bottom_neighbor_is_model` (source functions, translated on every run, equal the model for all arguments) | same, re-checked for x,y <= 12 | all Hubbard-type generators vs edge-list specification, Hermiticity, conservation, general model, jellium consistency | jellium transcendental sums (consistency only) |
@@ -241,7 +241,11 @@ LIMITS = r'''
   docstring's equivalent `bogoliubov_transform` construction); DOCI parent tensors use the integral
   convention (factor 1/2, as in the library's tests); uncontrolled Trotter circuits drop the constant's
   global phase; `rotate_basis` with 0.6/0.8 entries needs a tolerance; RDM harness bugs (cancelled
-  Pauli terms, N = 1 division); empty-list type inference in generated Coq files.
+  Pauli terms, N = 1 division); empty-list type inference in generated Coq files; the Fourier pairing of
+  plane-wave and dual-basis jellium was first demanded on every grid (for sheared cells with an even axis
+  it genuinely fails: recorded as finding D24, not a false alarm); `jw_get_ground_state_at_particle_number`
+  on an identically zero sector block makes ARPACK raise - the property speaks about the convention of
+  the returned state only, so such blocks are skipped and counted in the evidence.
 
 ---------------------------------------------------------------------------------------------
 
@@ -252,8 +256,10 @@ LIMITS = r'''
 * Axioms: **none declared**.  `Print Assumptions` reports "Closed under the global context" for every
   property theorem (recorded in each evidence file).  No `Admitted` / `admit`; no guard, positivity or
   universe switches.  Libraries used: Coq standard library only (`QArith`, `Qcanon`, `ZArith`, `NArith`,
-  `List`, `Bool`, `Lia`, `Ring`, `String`, `Sorted`).
-* `harness/vf/gen.py`: the `ast` translator for literal tables.
+  `List`, `Bool`, `Lia`, `Ring`, `String`, `Sorted`, `Permutation`, `ZifyBool`/`ZifyNat`).
+* `harness/vf/gen.py`: the `ast` translator for literal tables and for pure integer functions (it
+  identifies Python's unbounded `int` `+ - * %` with `Z.add`, `Z.sub`, `Z.mul`, `Z.modulo`, and a Python
+  truth test of a flag parameter with a Coq `bool`).
 * The Python harness: float -> exact-rational conversion (`fractions.Fraction`), serialisation of inputs
   and outputs into Coq terms, generators, region predicates for open findings, the spec operators it
   assembles for some properties (tensor denotation `spec_poly`, docstring Hamiltonians in C08/C13/C17),
